@@ -512,6 +512,7 @@ def grams_for(prop, tier, seed):
         k = F.fam_kinds(tier)
         g += k[::9] if q else k[::2]
         g += F.fam_dyck_inputs(tier)
+        g += F.fam_repo(tier)
         return g
     if prop == "C03":
         g = F.fam_ops(tier)
@@ -525,6 +526,7 @@ def grams_for(prop, tier, seed):
         g += F.fam_err(tier)
         k = F.fam_kinds(tier)
         g += k[::12] if q else k[::3]
+        g += F.fam_repo(tier)
         return g
     if prop == "C04":
         g = F.fam_trail(tier)
@@ -555,6 +557,7 @@ def grams_for(prop, tier, seed):
         g += F.fam_rand(tier, seed, 6 if q else 30, "stack")
         ops = F.fam_ops(tier)
         g += ops[::5] if q else ops[::2]
+        g += F.fam_repo(tier)
         return g
     if prop == "C05":
         st = F.fam_stack(tier)
@@ -580,7 +583,10 @@ def check_C01(tier, seed):
     ctx = Ctx("C01", tier, seed)
     grams = grams_for("C01", tier, seed)
     ctx.notes["grammars"] = len(grams)
-    run_generic(ctx, "c01", grams, "sP", cmp_c01)
+    rows = run_generic(ctx, "c01", grams, "sP", cmp_c01)
+    import tracechk
+    sub = [dict(g) for g in grams if tracechk.eligible(g)]
+    tracechk.validate(ctx, "c01", sub[::4] if tier == "quick" else sub, seed, 3 if tier == "quick" else 12, rows=rows)
     return ctx.finish(rule=RULE_A + "Decisive: verdict and consumed byte offset of try_parse_partial.")
 
 
@@ -747,7 +753,9 @@ def check_C05(tier, seed):
     ctx = Ctx("C05", tier, seed)
     grams = grams_for("C05", tier, seed)
     ctx.notes["grammars"] = len(grams)
-    run_generic(ctx, "c05", grams, "sP", cmp_c05)
+    rows = run_generic(ctx, "c05", grams, "sP", cmp_c05)
+    import tracechk
+    tracechk.validate(ctx, "c05", [dict(g) for g in grams], seed, 6 if tier == "quick" else 40, rows=rows)
     return ctx.finish(rule=RULE_A + "Family: {choice, two-armed choice, optional, repetition, &, &-failing, !, !-succeeding, nested optional, repetition over choice} x 9 stack effects (PUSH, POP, DROP, POP_ALL, push-push, pop-push, drop-push, nested optional POP, choice of DROP|PUSH) x failing continuation x 5 probe suffixes that make any leaked or lost entry change acceptance, under normal / atomic / compound / non-atomic rules, + seeded random stack grammars. Decisive: verdict, offset (parse and check path) and the final stack contents against the immutable-stack denotation (M1, M2).")
 
 
@@ -763,7 +771,10 @@ def check_C07(tier, seed):
     ctx = Ctx("C07", tier, seed)
     grams = grams_for("C07", tier, seed)
     ctx.notes["grammars"] = len(grams)
-    run_generic(ctx, "c07", grams, "sP", cmp_c07)
+    rows = run_generic(ctx, "c07", grams, "sP", cmp_c07)
+    import tracechk
+    sub = [dict(g) for g in grams if tracechk.eligible(g)]
+    tracechk.validate(ctx, "c07", sub[::3] if tier == "quick" else sub, seed, 4 if tier == "quick" else 20, rows=rows)
     return ctx.finish(rule=RULE_A + "Family: chains of rule kinds k1 -> k2 -> k3 (5^3, sampled in quick) around a sequence body and a repetition body x {no skip rule, WHITESPACE, COMMENT, both}; inputs = sentences with every combination of skippable text in each gap (also leading / trailing); + seeded random grammars with WHITESPACE / COMMENT of all five kinds. M6: a skip step only from a sequence / repetition(i>0) / trailing position and only in non-atomic context. Decisive: verdict, offset (parse and check path) and token spans.")
 
 
